@@ -74,6 +74,36 @@ impl Prop for PExec {
                           "argv": execs.first().map(|a| a.iter().map(|x| bytes_to_json(x)).collect::<Vec<_>>()).unwrap_or_default(),
                           "cwd": cwds.first().map(|c| bytes_to_json(c)).unwrap_or_else(|| json!([]))});
         }
+        if input["mode"] == "reltool" {
+            // the command is named relative to the directory it is run from (-execdir ./tool): whether it can be started is
+            // a matter of each invocation - one directory has no such file, the next one has
+            let dir = fresh_case_dir(&self.sb, &mut self.counter);
+            let dir = dir.canonicalize().unwrap_or(dir);
+            for d in ["d/a", "d/b", "d/c"] {
+                std::fs::create_dir_all(dir.join(d)).unwrap();
+            }
+            for f in ["d/a/f1", "d/b/g1", "d/b/g2", "d/c/h1"] {
+                std::fs::write(dir.join(f), b"").unwrap();
+            }
+            std::os::unix::fs::symlink(vrec_path(), dir.join("d/b/tool")).unwrap();
+            let log = dir.parent().unwrap().join("vrec.log");
+            let _ = std::fs::remove_file(&log);
+            let plus = input["plus"].as_bool().unwrap_or(true);
+            let mut args: Vec<String> = ["d/a", "d/b", "d/c", "-sorted", "-type", "f", "!", "-name", "tool", "-execdir", "./tool", "{}"].iter().map(|x| x.to_string()).collect();
+            args.push(if plus { "+".into() } else { ";".into() });
+            let env = vec![("VREC_LOG".to_string(), log.to_string_lossy().into_owned())];
+            let r = run_find_bin(&dir, &args, None, &env, 60);
+            if r.panicked {
+                return json!({"panic": true, "args": args});
+            }
+            let (execs, cwds, _) = read_log(&log);
+            let ex: Vec<Value> = execs
+                .iter()
+                .zip(cwds.iter())
+                .map(|(a, c)| json!({"argv": a.iter().map(|x| bytes_to_json(x)).collect::<Vec<_>>(), "cwd": bytes_to_json(&rel_cwd(&dir, c))}))
+                .collect();
+            return json!({"execs": ex, "exit": r.exit});
+        }
         let dir = fresh_case_dir(&self.sb, &mut self.counter);
         let dir = dir.canonicalize().unwrap_or(dir);
         let tree = parse_tree(&input["tree"]);
@@ -177,6 +207,9 @@ impl Prop for PExec {
     }
 
     fn gen(&mut self, rng: &mut Rng, idx: usize, tier: &str) -> Value {
+        if idx % 50 == 33 {
+            return json!({"mode": "reltool", "plus": self.flavour == "C08"});
+        }
         if idx % 50 == 17 {
             return json!({"mode": "rootdir", "execdir": !rng.chance(1, 4), "plus": if self.flavour == "C08" { true } else { false }});
         }
